@@ -420,6 +420,7 @@ def c13_existing(src, quick=True, timeout=300):
         for target in (None, 2):
             for k in ks:
                 for gap in gapvariants:
+                  for refmod in (("", ":%") if gap == 0 and k == ks[0] else ("",)):
                     idx += 1
                     if not mine(idx):
                         continue
@@ -430,7 +431,7 @@ def c13_existing(src, quick=True, timeout=300):
                         T.lit('target: "').hole("tgt", target, MSG_CHARS, mark="tgt").lit('", ')
                     for kv in before:
                         T.lit(kv + ", ")
-                    T.lit("ref").hole("ge", gap, tmpl.WS_PLAIN).lit("=").hole("gv", gap, tmpl.WS_PLAIN)
+                    T.lit("ref" + refmod).hole("ge", gap, tmpl.WS_PLAIN).lit("=").hole("gv", gap, tmpl.WS_PLAIN)
                     T.mark("val")
                     digit_hole(T, "d", k)
                     T.hole("gs", gap, tmpl.WS_PLAIN)
@@ -445,7 +446,7 @@ def c13_existing(src, quick=True, timeout=300):
                     cons.append(v <= model.U32_MAX)
                     fm = model.FileModel(src, t, max_kvps=len(before) + len(after) + 2)
                     p0 = T.marks["name"]
-                    desc = "before=%s after=%s target=%s digits=%d gap=%d" % (before, after, target is not None, k, gap)
+                    desc = "before=%s after=%s target=%s digits=%d gap=%d ref%s" % (before, after, target is not None, k, gap, refmod)
                     name = "c13-existing-%d" % idx
                     bound = "template info!([target,] %s ref<gap>=<gap><%d digits><gap> %s; \"msg\") value <= u32::MAX" % (
                         ", ".join(before), k, ", ".join(after))
@@ -832,6 +833,23 @@ def c14_directives(src, quick=True, timeout=300):
                     "kind": "entries_exact", "structured": False, "macros": INFO, "positions": [T.marks["s1msg"]]}
             case("c14-other-text-%s-%s" % (sname, where), build_other)
 
+        def build_multibyte(sname=sname, op=op, cl=cl):
+            # a configured macro whose name starts with a two-byte character, in column 1
+            T = tmpl.Template("c14m_%s" % sname)
+            mac = (("m", "\u00e9x"),)
+            T.lit(op + " " + ign + " " + cl + "\n")
+            T.lit("\u00e9x", mark="s1").lit('!("').hole("s1m", 2, MSG_CHARS, mark="s1msg").lit('")\n')
+            T.lit(op + " " + ign + " " + cl + "\nfoo();\n")
+            T.lit("\u00e9x", mark="s2").lit('!("').hole("s2m", 2, MSG_CHARS, mark="s2msg").lit('")\n')
+            t, cons = finish(T, ["s1msg", "s2msg"])
+            fm = model.FileModel(src, t)
+            e1 = model.SymEntry(fm, T.marks["s1"], mac, False, dirs)
+            e2 = model.SymEntry(fm, T.marks["s2"], mac, False, dirs)
+            good = And(e1.ignored, Not(e1.considered), e2.considered)
+            return t, cons, Not(good), "macro named with a two-byte first character in column 1: directive directly above / two lines above", {
+                "kind": "entries_exact", "structured": False, "macros": mac, "positions": [T.marks["s2msg"]]}
+        case("c14-multibyte-name-%s" % sname, build_multibyte)
+
         def build_after(sname=sname, op=op, cl=cl):
             T = tmpl.Template("c14e_%s" % sname)
             statement(T, "s1")
@@ -924,4 +942,32 @@ def c12_in_statement(src, timeout=300):
                              "info!(<token %s>) with a 2-digit number and symbolic surrounding text" % name, timeout,
                              extra={"expect": {"kind": "entry_ref", "structured": False, "macros": INFO, "has_ref": should,
                                                "digits_at": T.marks["dig"], "ndigits": 2}}))
+    return out
+
+
+def c10_prefix_literals(src, structured=False, timeout=300):
+    """code in front of the statement that contains quote characters without opening a string: char and byte
+    literals holding a double quote, lifetimes; the statement after them is still found"""
+    out = []
+    prefixes = ["'\"' ", "b'\"'; ", "x.push('\"'); ", "'\\\"' ", "fn f<'a>(x: &'a str) { ", "let c = '\\''; "]
+    for idx, pre in enumerate(prefixes):
+        if not mine(idx):
+            continue
+        T = tmpl.Template("c10p%d" % idx)
+        T.lit(pre).hole("g", 1, tmpl.WS_GRAMMAR).lit("info", mark="name").lit('!("').hole("msg", 3, MSG_CHARS, mark="msg").lit('")').tail("rest", 2)
+        t, cons = T.build()
+        cons += tmpl.string_body_ok(t, T.marks["msg"], 3) + no_directive(t)
+        fm = model.FileModel(src, t)
+        p0 = T.marks["name"]
+        name = "c10-after-quote-literal-%d" % idx
+        bound = "`%s` followed by info!(\"<3 chars>\")" % pre
+        exp = {"kind": "entry_at", "pos": T.marks["msg"] if not structured else T.marks["name"] + 6, "structured": structured, "macros": INFO}
+        if p0 not in fm.found:
+            out.append({"name": name, "verdict": "violated", "seconds": 0.0, "bound": bound, "twin": None, "note": "",
+                        "witness": {"text": solve.any_instance(t, cons), "why": "the statement is never recognised after this prefix"},
+                        "expect": exp})
+            continue
+        e = model.SymEntry(fm, p0, INFO, structured, None)
+        good = And(e.considered, Or(e.has_ref, e.needs_id))
+        out.append(run_query(name, t, cons, Not(good), bound, timeout, extra={"expect": exp}))
     return out
